@@ -369,18 +369,20 @@ Proof.
     assert (c3 = None) by (eapply parse_chans_none; exact Ep). subst c3.
     destruct rest; inversion E1; reflexivity. }
   subst c1. clear E1.
-  unfold parse_stream in E2. unfold dec_msg_payload.
-  destruct (take 4 p) as [[mg r0]|]; [|inversion E2].
-  destruct (negb (bytes_eqb mg msgMagic)); [inversion E2|].
-  destruct (get_be 2 r0) as [[ver r1]|]; [|inversion E2].
-  destruct (negb (ver =? msgVersion)); [inversion E2|].
-  destruct (get_be 2 r1) as [[hs r2]|]; [|inversion E2].
-  destruct (get_be 4 r2) as [[n r3]|]; [|inversion E2].
+  unfold parse_stream in E2.
+  destruct (take 4 p) as [[mg r0]|] eqn:T0; [|inversion E2].
+  destruct (negb (bytes_eqb mg msgMagic)) eqn:T1; [inversion E2|].
+  destruct (get_be 2 r0) as [[ver r1]|] eqn:T2; [|inversion E2].
+  destruct (negb (ver =? msgVersion)) eqn:T3; [inversion E2|].
+  destruct (get_be 2 r1) as [[hs r2]|] eqn:T4; [|inversion E2].
+  destruct (get_be 4 r2) as [[n r3]|] eqn:T5; [|inversion E2].
   destruct (maxMessageBackupStreamChannels <? n); [inversion E2|].
   destruct (parse_chans true (bounded n r3) None [] orc r3 tgt 0 0) as [t3 [[[[c3 m] mx] rest]|e]] eqn:Ep; [|inversion E2].
   assert (c3 = None) by (eapply parse_chans_none; exact Ep). subst c3.
   destruct rest as [|b rest]; [|inversion E2]. inversion E2; subst t3. clear E2.
   destruct (install_parse _ _ _ _ _ _ _ _ _ _ _ Ep) as (l & Hd & Hin & Hout).
   { intros key _. apply Habs. }
-  exists p, (RS hs l). rewrite Hd. cbn [rs_chans]. repeat split; auto.
+  exists p, (RS hs l). split; [reflexivity|]. split.
+  { unfold dec_msg_payload. rewrite T0, T1, T2, T3, T4, T5, Hd. reflexivity. }
+  cbn [rs_chans]. split; assumption.
 Qed.
